@@ -203,6 +203,28 @@ def r4_history_lookups(chk: Check) -> None:
         chk.undecided("C18.R4", frel, "traverse children by parent id", "nested traversal not found", frel.loc())
     else:
         chk.expect(phas("$n.parent_id == node_id", tr.node) and any(isinstance(y, ast.YieldFrom) for y in walk_body(tr.node)), "C18.R4", tr, "traverse yields every node whose parent is the current one, recursively", "traversal shape not recognised", tr.loc())
+    # completeness of the walk: the `seen` set prunes the traversal, so a node may be marked as seen only where its
+    # subtree is traversed as well (the starting case itself is the one exception: it is the request under judgement)
+    fns_ = [frel] + ([tr] if tr is not None else [])
+    seen_vars = {name_of(b, "v") for n_, b in pfind("$v = {$_}", frel.node)} | {name_of(b, "v") for n_, b in pfind("$v = set()", frel.node)}
+    n_adds = 0
+    for f_ in fns_:
+        g = cfg_of(f_)
+        for c in body_calls(f_):
+            if last_attr(c) == "add" and isinstance(c.func, ast.Attribute) and dotted(c.func.value) in seen_vars and c.args:
+                n_adds += 1
+                arg = unparse(c.args[0])
+                trav = [nid for x in body_calls(f_) if isinstance(x.func, ast.Name) and x.func.id == "traverse" and x.args and unparse(x.args[0]) == arg for nid in g.stmt_nodes_containing(x)]
+                construct = f"{f_.name}: `{unparse(c, 40)}` only where the subtree of that node is traversed"
+                w = g.path(g.stmt_nodes_containing(c), [g.exit], avoid=trav, edge_ok=lambda a, b, lbl: not lbl.startswith("exc:")) if trav else []
+                if trav and w is None:
+                    chk.ok("C18.R4", f_, construct, "", f_.loc(c))
+                else:
+                    chk.violation("C18.R4", f_, construct,
+                                  f"`{arg}` is marked as seen but `traverse({arg})` does not follow on every path: the walk later refuses to descend through that node, so the cases below it (siblings / cousins of the judged request - e.g. the DELETE that freed the resource) are never returned; use-after-free is missed and a legitimately deleted resource is reported as 'not available'",
+                                  f_.loc(c))
+    if n_adds < 2:
+        chk.undecided("C18.R4", frel, "seen-set discipline of find_related", f"only {n_adds} seen.add(...) site(s) recognised", frel.loc())
     for meth in ("find_parent", "find_related", "find_response"):
         f = P.func(f"checks.py:CheckContext.{meth}")
         chk.decide(any(dotted(c.func) == f"self.recorder.{meth}" and ceq(f, kwarg(c, "case_id"), "case_id") for c in body_calls(f)), "C18.R4", f, f"CheckContext.{meth} -> recorder.{meth}(case_id=case_id)", "the check context looks the history up somewhere else / with another id", f.loc())
